@@ -38,6 +38,7 @@ import (
 	uio "github.com/ipfs/boxo/ipld/unixfs/io"
 	"github.com/ipfs/boxo/path"
 	"github.com/ipfs/boxo/path/resolver"
+	"github.com/ipfs/boxo/retrieval"
 	blocks "github.com/ipfs/go-block-format"
 	"github.com/ipfs/go-cid"
 	"github.com/ipfs/go-datastore"
@@ -793,7 +794,21 @@ func exec(c vh.Case, o *vh.Out) {
 			}(ex)
 			switch f[0] {
 			case "rtl":
-				rc, rem, err := res.ResolveToLastNode(w.ctx, ip)
+				// every other call carries a retrieval.State: the resolver must record root and terminal CID
+				rctx, rstate := w.ctx, (*retrieval.State)(nil)
+				if len(segs)%2 == 1 {
+					rctx, rstate = retrieval.ContextWithState(w.ctx)
+				}
+				rc, rem, err := res.ResolveToLastNode(rctx, ip)
+				if rstate != nil {
+					o.Kind("with-retrieval-state")
+					if !rstate.GetRootCID().Equals(rootCid) {
+						fail("retrieval-state-root", "path %q: recorded root %s", segs, rstate.GetRootCID())
+					}
+					if err == nil && !rstate.GetTerminalCID().Equals(rc) {
+						fail("retrieval-state-terminal", "path %q: recorded terminal %s, returned %s", segs, rstate.GetTerminalCID(), rc)
+					}
+				}
 				var nl *resolver.ErrNoLink
 				switch {
 				case err == nil:
@@ -820,6 +835,8 @@ func exec(c vh.Case, o *vh.Out) {
 						fail("missing-name-not-nolink", "path %q: %v", segs, err)
 					} else if nl.Name != segs[missAt] {
 						fail("missing-name-wrong-segment", "path %q: ErrNoLink names %q, first missing is %q", segs, nl.Name, segs[missAt])
+					} else if !errors.Is(err, &resolver.ErrNoLink{}) || !strings.Contains(err.Error(), strconv.Quote(segs[missAt])) {
+						fail("nolink-error-text", "path %q: errors.Is / message %q do not identify the missing segment", segs, err.Error())
 					}
 				} else if err == nil { // below a file
 					fail("below-file-resolved", "path %q resolved to %s", segs, rc)
